@@ -28,6 +28,8 @@ def run_one(prop: str, tier: str) -> int:
         mod = importlib.import_module(f"sa.props.{prop.lower()}")
     except ModuleNotFoundError as e:
         return report.fail_analysis(prop, tier, f"no rule module for {prop}: {e}")
+    except Exception as e:      # a broken checker module is an analysis error, never a verdict
+        return report.fail_analysis(prop, tier, f"checker module failed to load: {type(e).__name__}: {e}")
     try:
         prj = core.Project(core.REPO)
         ctx = report.Ctx(prop, tier, LEVELS.get(prop, "other"))
